@@ -117,6 +117,9 @@ func fieldInfoForOneof(fd protoreflect.FieldDescriptor, fs reflect.StructField, 
 			}
 			rv = rv.Elem().Elem().Field(0)
 			rv.Set(conv.GoValueOf(v))
+			if isMessage && rv.Kind() == reflect.Ptr && rv.IsNil() {
+				panic(fmt.Sprintf("field %v has invalid nil pointer", fd.FullName()))
+			}
 		},
 		mutable: func(p pointer) protoreflect.Value {
 			if !isMessage {
